@@ -367,6 +367,47 @@ func c03Powers(c *mc.Check) {
 	f.Done()
 }
 
+func c03HexHalfway(c *mc.Check, tailBits int) {
+	f := c.Family("hex-halfway", fmt.Sprintf("hexadecimal floats whose mantissa has more bits than a float64 holds: leading hex digit ∈ {1,3,7,f,8} (so the mantissa must be shifted right by 0…3 bits) × 13 further hex digits from 10 patterns (all zero, all f, even and odd last bit, alternating) × EVERY tail of %d extra bits written as 1–3 more hex digits (so every position of the round bit and of the sticky bits occurs, just below, at and just above each halfway point) × exponents p0, p-1022, p-1023, p-1074, p1023, p1020, p-5, both signs for a subset; compared bit for bit with strconv; non-trivial = tails with a non-zero sticky part", tailBits), c03Replay)
+	if c.Replaying() {
+		return
+	}
+	leads := []string{"1", "3", "7", "f", "8"}
+	mids := []string{"0000000000000", "fffffffffffff", "0000000000001", "ffffffffffffe", "5555555555555", "aaaaaaaaaaaaa", "8000000000000", "0000000000003", "123456789abcd", "fedcba9876542"}
+	exps := []string{"p0", "p-1022", "p-1023", "p-1074", "p1023", "p1020", "p-5"}
+	var texts []string
+	for _, ld := range leads {
+		for _, mid := range mids {
+			for t := 0; t < 1<<tailBits; t++ {
+				var tails []string
+				switch {
+				case tailBits <= 4:
+					tails = []string{fmt.Sprintf("%x", t)}
+				case tailBits <= 8:
+					tails = []string{fmt.Sprintf("%02x", t)}
+				default:
+					tails = []string{fmt.Sprintf("%03x", t)}
+				}
+				if t < 16 {
+					tails = append(tails, fmt.Sprintf("%x", t), fmt.Sprintf("%x000000001", t))
+				}
+				for _, tl := range tails {
+					for ei, e := range exps {
+						s := "0x" + ld + "." + mid + tl + e
+						texts = append(texts, s)
+						if ei == 0 && t%7 == 0 {
+							texts = append(texts, "-"+s, "0X"+strings.ToUpper(ld+"."+mid+tl)+"P+0")
+						}
+					}
+				}
+			}
+		}
+	}
+	c03RunList(c, f, texts, []string{"value"})
+	f.Sample(c03Case{"value", "0x1.000000000000084p0"})
+	f.Done()
+}
+
 func c03Integers(c *mc.Check) {
 	f := c.Family("integer-boundaries", "integers B+δ (δ∈−25..25) around 2^53, 2^63, 2^64, (MaxInt64−10)/10 and its ×10, 10^18, 10^19, 10^22, 10^23, each also ×10^k (k≤21) and with suffixes .0 .5 e0 and leading zeros / signs, in both fields; compared with strconv; non-trivial = strconv accepts", c03Replay)
 	if c.Replaying() {
@@ -467,6 +508,7 @@ func TestVerifC03(t *testing.T) {
 	c03Strings(c, "symbol-strings", c03Symbols, mc.Pick(c, 6, 7), []string{"value", "iters"})
 	c03Strings(c, "hex-strings", []string{"0", "x", "1", "f", ".", "p", "+", "-", "4", "_"}, mc.Pick(c, 7, 8), []string{"value"})
 	c03Halfway(c, 1)
+	c03HexHalfway(c, mc.Pick(c, 8, 12))
 	c03Powers(c)
 	c03Integers(c)
 	c03Special(c)
